@@ -201,6 +201,9 @@ func GenAmountFor(t *rapid.T, p *Profile, sym string, q m.Num) *m.Amount {
 				a.SymSpace = false // USD5
 			}
 		}
+		if a.Left && a.SymSpace && !p.off("commodity.tab-gap") && rapid.IntRange(0, 5).Draw(t, "symtab") == 0 {
+			a.SymTab = true
+		}
 		if a.Left {
 			a.SignBefore = rapid.Bool().Draw(t, "signbefore")
 			if a.SignBefore {
